@@ -57,11 +57,11 @@ def build_tree(rng, tier):
         r = rng.random()
         if pool and r < 0.12:
             return rng.choice(pool)
-        kinds = (['linear', 'linear', 'conv', 'mylinear', 'myconv', 'relu', 'bn', 'emb', 'lstm', 'conv1d', 'identity', 'linear_nobias']
+        kinds = (['linear', 'linear', 'conv', 'mylinear', 'myconv', 'relu', 'bn', 'emb', 'lstm', 'conv1d', 'identity', 'linear_nobias', 'conv_grouped']
                  if not neox else ['col', 'row', 'col', 'row', 'linear', 'relu', 'emb', 'identity'])
         k = rng.choice(kinds)
         m = {'linear': lambda: nn.Linear(2, 3), 'linear_nobias': lambda: nn.Linear(3, 2, bias=False),
-             'conv': lambda: nn.Conv2d(1, 2, 3), 'mylinear': lambda: MyLinear(2, 2), 'myconv': lambda: MyConv(1, 1, 1),
+             'conv': lambda: nn.Conv2d(1, 2, 3), 'conv_grouped': lambda: nn.Conv2d(2, 2, 3, groups=2), 'mylinear': lambda: MyLinear(2, 2), 'myconv': lambda: MyConv(1, 1, 1),
              'relu': nn.ReLU, 'bn': lambda: nn.BatchNorm2d(2), 'emb': lambda: nn.Embedding(3, 2),
              'lstm': lambda: nn.LSTM(2, 2), 'conv1d': lambda: nn.Conv1d(1, 1, 1), 'identity': nn.Identity,
              'col': lambda: ColumnParallelLinear(2, 2), 'row': lambda: RowParallelLinear(2, 2)}[k]()
